@@ -4,6 +4,7 @@
   of the handshake verdict.  Chain validity is the Boolean `chainOk` (OpenSSL's; see level_note).
 -/
 import MitmVerif.Model.C15
+import MitmVerif.Model.C15_Classify
 import MitmVerif.Model.C14
 import MitmVerif.Lemmas.C14
 import MitmVerif.Gen.C15
@@ -337,6 +338,88 @@ theorem insecure_off_requires_verify_any_transport (tr : Transport) (classify : 
       simp only [Bool.and_eq_true] at hok
       exact ⟨hok.1, _, r, rfl, rfl, ossl_refines_spec _ _ hok.2⟩
     · cases h
+
+/-! ### `_ip_or_dns_name` transcribed (C22.parseIp + the idna codec's ASCII fast path) instead of assumed -/
+
+/-- What the transcribed classifier can answer: an iPAddress exactly when `ipaddress.ip_address` parses the text, otherwise the text
+    ITSELF as dNSName (ASCII names are not rewritten, not even lower-cased) provided the codec's label rule holds — never any other
+    kind of name. -/
+theorem classify_ascii_kinds (s : Bytes) (g : GName) (h : classifyAscii s = some g) :
+    (∃ v, g = .ip v ∧ (C22.parseIp s).isSome = true) ∨ (g = .dns s ∧ C22.parseIp s = none ∧ idnaAsciiOk s = true) := by
+  unfold classifyAscii at h
+  split at h
+  · rename_i n hp; simp only [Option.some.injEq] at h; exact Or.inl ⟨_, h.symm, by simp [hp]⟩
+  · rename_i n sc hp; simp only [Option.some.injEq] at h; exact Or.inl ⟨_, h.symm, by simp [hp]⟩
+  · rename_i hp
+    split at h
+    · rename_i hok; simp only [Option.some.injEq] at h; exact Or.inr ⟨h.symm, hp, hok⟩
+    · cases h
+
+private theorem classifyT_ascii (slow : Bytes → Option GName) (s : Bytes) (ha : isAscii s = true) :
+    classifyT slow s = classifyAscii s := by simp [classifyT, ha]
+
+/-- `verified_identity_transport_independent` without its hypotheses about the classifier: for an ASCII, non-empty server name that
+    the transcribed `_ip_or_dns_name` accepts, the TCP and the QUIC path verify the same reference identifier. -/
+theorem verified_identity_transport_independent_ascii (slow : Bytes → Option GName) (hf : Nat) (c : Cfg)
+    (hne : effSni c ≠ []) (ha : isAscii (effSni c) = true) (hok : (classifyAscii (effSni c)).isSome = true) :
+    ∃ p q, startServerT .tcp (classifyT slow) hf c = .plan p ∧ startServerT .quic (classifyT slow) hf c = .plan q
+      ∧ p.ref = q.ref ∧ p.verifyPeer = q.verifyPeer ∧ q.ref.isSome = true := by
+  cases hg : classifyAscii (effSni c) with
+  | none => rw [hg] at hok; cases hok
+  | some g =>
+    have hk : ∀ k v, g ≠ .other k v := by
+      intro k v hkv
+      rcases classify_ascii_kinds _ _ hg with h1 | h1
+      · obtain ⟨v', hv, _⟩ := h1; rw [hkv] at hv; cases hv
+      · obtain ⟨hv, _, _⟩ := h1; rw [hkv] at hv; cases hv
+    exact (verified_identity_transport_independent (classifyT slow) hf c hne g
+      (by rw [classifyT_ascii slow _ ha]; exact hg) hk).1
+
+/-- For an ASCII server name, what `tls_start_server` sends as SNI and what it verifies are the configured name itself, byte for
+    byte; an IP literal is never sent as SNI and is verified as an IP address (the packed address `ipaddress` parses it to). -/
+theorem server_name_not_rewritten (hostOk : Bytes → Bool) (slow : Bytes → Option GName) (hf : Nat) (c : Cfg) (p : Plan)
+    (ha : isAscii (effSni c) = true) (hne : effSni c ≠ [])
+    (hp : startServer (classifyServer hostOk slow) hf c = .plan p) :
+    (C22.parseIp (effSni c) = none → p.ref = some (.host (effSni c)) ∧ p.sniExt = some (effSni c))
+    ∧ ((C22.parseIp (effSni c)).isSome = true → p.sniExt = none ∧ ∃ v, p.ref = some (.addr v)) := by
+  have hne' : (effSni c).isEmpty = false := by
+    cases h : effSni c with
+    | nil => exact absurd h hne
+    | cons a t => rfl
+  unfold startServer at hp
+  simp only [hne', Bool.false_eq_true, if_false] at hp
+  cases hcs : classifyServer hostOk slow (effSni c) with
+  | none => simp [hcs] at hp
+  | some g =>
+    have hcs0 := hcs
+    unfold classifyServer at hcs
+    rw [classifyT_ascii slow _ ha] at hcs
+    cases hca : classifyAscii (effSni c) with
+    | none => simp [hca] at hcs
+    | some g0 =>
+      rcases classify_ascii_kinds _ _ hca with h1 | h1
+      · obtain ⟨v, hv, hip⟩ := h1
+        subst hv
+        simp only [hca, Option.some.injEq] at hcs
+        subst hcs
+        simp only [hcs0, StartRes.plan.injEq] at hp
+        subst hp
+        exact ⟨fun hn => (by rw [hn] at hip; cases hip), fun _ => ⟨rfl, v, rfl⟩⟩
+      · obtain ⟨hv, hnp, _⟩ := h1
+        subst hv
+        simp only [hca] at hcs
+        split at hcs
+        · simp only [Option.some.injEq] at hcs
+          subst hcs
+          simp only [hcs0, StartRes.plan.injEq] at hp
+          subst hp
+          exact ⟨fun _ => ⟨rfl, rfl⟩, fun hi => (by rw [hnp] at hi; cases hi)⟩
+        · cases hcs
+
+example : classifyAscii (strBytes "192.0.2.1") = some (.ip [4, 192, 0, 2, 1]) := by decide +kernel
+example : classifyAscii (strBytes "www.Example.com.") = some (.dns (strBytes "www.Example.com.")) := by decide +kernel
+example : classifyAscii (strBytes "a..b") = none := by decide +kernel
+example : classifyAscii (strBytes "1.2.3") = some (.dns (strBytes "1.2.3")) := by decide +kernel
 
 /-- A SAN pattern that does not begin with `*` is compared literally (ASCII case-insensitively) by the OpenSSL transcription:
     no wildcard semantics can arise from `w*.x`, `www.*.x` or from names without `*`. -/
